@@ -20,7 +20,7 @@ RULE = (
     "part channels: a problem (1-6 streams, thorough 1-8; 1-3 zones; utilities; printable stream / utility / zone names incl. a dictionary "
     "of awkward ones: NA, null, 1e3, 007, names with commas, quotes, dots, spaces) written by the harness as plain dict, TargetInput "
     "model, value-with-unit dict, JSON file, CSV directory, CSV pair and XLSX workbook with the three template sheets, each run through "
-    "pinch_analysis_service and / or the PinchProblem wrapper with a generated sequence of target / target / export / reload calls; "
+    "pinch_analysis_service and / or the PinchProblem wrapper with a generated sequence of target / target / export calls, in a third of the cases after the same wrapper object has loaded and targeted another problem (duties doubled) first; "
     "oracle: every channel returns the targets of the plain-dict service call (record names compared after the root name and the "
     "readers' documented normalisation '.'->'-', digit-only prefixing, trimming; numbers exactly), target() returns the cached object, "
     "the exported workbook's sheet names are unique, <= 31 characters and free of : \\ / ? * [ ]. part sheetnames: generated sets of "
@@ -241,6 +241,24 @@ def eval_channels(case) -> Outcome:
                     root = "Untitled"
                 else:
                     p = PinchProblem()
+                    if case.get("preload") and ch in ("json", "xlsx"):
+                        # the same wrapper first loads and targets another problem (every duty doubled): what it
+                        # answers after loading the real source must not come from that earlier run
+                        other = copy.deepcopy(base)
+                        for s_ in other["streams"]:
+                            s_["heat_flow"] = s_["heat_flow"] * 2.0
+                        od = os.path.join(d, "other")
+                        os.makedirs(od, exist_ok=True)
+                        osrc = os.path.join(od, "Site" + os.path.splitext(src)[1])
+                        if ch == "json":
+                            with open(osrc, "w", encoding="utf-8") as fh:
+                                json.dump(other, fh)
+                        else:
+                            write_xlsx(osrc, other)
+                        okp, _ = call_sut(p.load, osrc)
+                        if okp:
+                            call_sut(p.target)
+                            out.labels.add("wrapper-reloaded")
                     okl, _ = call_sut(p.load, src)
                 if not okl:
                     out.fail(f"C16.channel_{ch}_raises", f"{ch}: load raised {p if ch == 'from_json' else _}: {call_sut.last_message}")
@@ -344,7 +362,7 @@ def channel_case(draw, tier):
         us.append(u)
     chans = draw(st.lists(st.sampled_from(["model", "vu", "json", "from_json", "csvdir", "csvpair", "xlsx"]), min_size=3, max_size=5, unique=True))
     ops = draw(st.lists(st.sampled_from(["target", "target", "export"]), min_size=0, max_size=3))
-    case = {"streams": ss, "utilities": us, "channels": chans, "ops": ops}
+    case = {"streams": ss, "utilities": us, "channels": chans, "ops": ops, "preload": draw(st.integers(0, 2)) == 0}
     if draw(st.integers(0, 3)) == 0:
         case["options"] = draw(st.sampled_from([{"DT_CONT": 10.0}, {"DT_CONT": 2.5, "DT_PHASE_CHANGE": 0.5}, {"DO_VERTICAL_GCC": True}, {"DO_BALANCED_CC": False, "DT_CONT": 7.5}, {"UTILITY_PRICE": 0.0}, {"DT_CONT": 0.0, "UTILITY_PRICE": 0}, {"DO_BALANCED_CC": False}, {"UTILITY_PRICE": 125.5, "ANNUAL_OP_TIME": 8000}]))
     return case
@@ -368,6 +386,6 @@ PARTS = [
     Part("channels", eval_channels, {"quick": 160, "thorough": 4000}, strategy=lambda tier: channel_case(tier), min_nontrivial={"quick": 40, "thorough": 1000}),
     Part("sheetnames", eval_sheetnames, {"quick": 3000, "thorough": 100000}, strategy=lambda tier: sheet_labels(), min_nontrivial={"quick": 1000, "thorough": 30000}),
 ]
-MIN_SHARE = {"channels": {"awkward-name": 0.2, "zones>=2": 0.3, "ch:xlsx": 0.2, "ch:csvdir": 0.2, "ch:json": 0.2}}
+MIN_SHARE = {"channels": {"wrapper-reloaded": 0.1, "awkward-name": 0.2, "zones>=2": 0.3, "ch:xlsx": 0.2, "ch:csvdir": 0.2, "ch:json": 0.2}}
 
 FUZZ = {"sheetnames": None}  # parts also driven by the coverage-guided supplement (thorough tier)
